@@ -208,6 +208,11 @@ def run(ctx, chk):
              "cbor_load unwinds `size` records), and a successful push makes the returned record the top and the depth one larger")
     import rules as _rpa
     _rpa.check_push_atomic(chk, "C06.push-atomic", prog, eff)
+    chk.rule("C06.capacity-field", "a block installed as a container's storage comes with its element capacity, and a recorded capacity is the one the "
+             "installed block was requested with: the slots between count and capacity exist (a refused or half-granted growth must not publish a capacity; shared with C12.capacity-field)")
+    import ownership as _Ocf
+    from props.c12 import check_capacity_field as _ccf
+    _ccf(chk, "C06.capacity-field", prog, eff, _Ocf.PathCache(prog, eff))
     chk.exhaustive = True
 
 
